@@ -293,6 +293,7 @@ var baseAssumptions = []string{
 	"A5 the VC generator (/verif/engine), its SMT encoding and the solvers z3 4.8.12, z3 5.1.0, cvc5 1.0.3 are trusted; mitigated by the must-fail corpus /verif/selftest and replay of every model on the real code",
 	"A6 exported lookup tables are not mutated by clients (inside the module this is checked by a structural scan on every run)",
 	"A7 termination is proved only for loops with a decreases clause",
+	"A8 functions under contract are deterministic in their arguments (no hidden state, clock or randomness): two calls with identical arguments on one path denote the same value. The library's only shared state, the one-slot year cache behind NewLunarYear, is a trusted contract; schedule independence (C09) is not decided",
 }
 
 func (r *Run) writeEvidence(nOb, nDis int, under, trusted, summarised, external, assumed, undecided []string, bySolver map[string]int, solverSec float64, slowest []string, samples []evSample, sres []*StandinResult, nviol int, wall float64) {
@@ -338,13 +339,34 @@ func (r *Run) writeEvidence(nOb, nDis int, under, trusted, summarised, external,
 		cov["distinct_nontrivial"] = evals
 		cov["rule"] = "bounded stand-ins enumerate their stated domain once; every evaluation is a distinct input"
 	}
+	// axioms the proofs of this run rest on
+	var axiomNotes []string
+	seenAx := map[string]bool{}
+	for _, u := range r.units {
+		for _, l := range u.Lemmas {
+			for _, d := range r.w.Lemmas {
+				if d.Name == l && d.Axiom && !seenAx[l] {
+					seenAx[l] = true
+					switch d.Checked {
+					case "":
+						axiomNotes = append(axiomNotes, "axiom "+l+": assumed, unchecked")
+					case "definitional":
+						axiomNotes = append(axiomNotes, "axiom "+l+": defining equation of an uninterpreted spec function by well-founded recursion (conservative; not checked mechanically)")
+					default:
+						axiomNotes = append(axiomNotes, "axiom "+l+": assumed in the proofs; executed against the real code over its whole finite domain by the bounded stand-in `"+d.Checked+"` on every run")
+					}
+				}
+			}
+		}
+	}
+	sort.Strings(axiomNotes)
 	ev := map[string]interface{}{
 		"property_id": r.prop,
 		"tier":        r.tier,
 		"seed":        seed,
 		"level":       level,
 		"coverage":    cov,
-		"assumptions": append(append([]string{}, baseAssumptions...), extraAssumptions[r.prop]...),
+		"assumptions": append(append(append([]string{}, baseAssumptions...), extraAssumptions[r.prop]...), axiomNotes...),
 		"wall_s":      round3(wall),
 		"violations":  nviol,
 	}
